@@ -279,6 +279,9 @@ fn run_batch(prop: &str, master: u64, jobs: &[(Sim, usize)], workers: usize, kno
                         if keep_hashes {
                             local_hashes.push((i, res.hash.clone()));
                         }
+                        if res.stats.samples.is_empty() && local_samples.is_empty() {
+                            local_samples.push((i, format!("seed {} -> {} decisions, event-log hash {}", res.seed, res.decisions.len(), res.hash)));
+                        }
                         for s in res.stats.samples.drain(..) {
                             if local_samples.len() < 4 || i < 4 {
                                 local_samples.push((i, s));
